@@ -294,6 +294,36 @@ func (e *bitEval) binop(op token.Token, a, b bv, w int, uns bool) bv {
 	}
 	out := make(bv, w)
 	a, b = a.resize(max(w, len(a))), b.resize(max(w, len(b)))
+	if op == token.ADD || op == token.SUB {
+		ca, oka := constOf(a)
+		cb, okb := constOf(b)
+		if oka && okb {
+			if op == token.ADD {
+				return constBV(ca+cb, w)
+			}
+			return constBV(ca-cb, w)
+		}
+		if op == token.ADD {
+			// no position where both operands can be non-zero: no carries, the sum is the union
+			disjoint := true
+			for i := 0; i < w; i++ {
+				if a[i].k != 0 && b[i].k != 0 {
+					disjoint = false
+				}
+			}
+			if disjoint {
+				for i := 0; i < w; i++ {
+					if a[i].k != 0 {
+						out[i] = a[i]
+					} else {
+						out[i] = b[i]
+					}
+				}
+				return out
+			}
+		}
+		return nil
+	}
 	switch op {
 	case token.AND, token.OR, token.XOR, token.AND_NOT:
 		for i := 0; i < w; i++ {
